@@ -645,6 +645,8 @@ func checkC06(c *Ctx) {
 	checkMemberDeleteLeavesTiers(c, "R11")
 	c.Rule("R12", "every endpoint event reaches the host set: each processor's add/remove/replace handler hands the event's own list to host.Set.Add/Remove/ReplaceAll on every path (the empty-list return aside)")
 	checkEndpointEventsReachSet(c, "R12")
+	c.Rule("R13", "the policy in force is the configured one (shared with C08.R5): a processor's configuration is replaced only after every fallible step of the update succeeded - otherwise a refused update leaves the new policy recorded but the old balancer in place, and no later update rebuilds it")
+	c.withAlias(map[string]string{"R5": "R13", "R1": "", "R2": "", "R3": "", "R4": "", "R6": "", "R7": "", "R8": "", "R9": "", "R10": "", "R11": "", "R12": "", "R13": ""}, func() { checkC08(c) })
 	// the snapshot given to the balancer is current only if every tier change rebuilds the cache
 	checkTierRebuild(c, "R1")
 
